@@ -682,4 +682,16 @@ SUBCHECKS = [
     SubCheck("features_large", feature_case(big=True), fn_features, quick=240, thorough=600, watchdog=(60, 240)),
 ]
 
-MATCHERS = {}
+# ---- proposed known-finding matchers (only active when listed in known_findings.json)
+def kf_boundary_map_direction(case, violation):
+    """extract_boundary_of_surface returns {surface id: polyline id}; documented is {polyline id: surface id}.
+    The signature only fires when the returned dict IS a consistent correspondence in the inverse direction."""
+    return violation.sub_check in ("border", "border_large") and violation.signature == "boundary:map-direction"
+
+
+def kf_boundary_component_attr(case, violation):
+    """the 'component' vertex attribute of the boundary polyline is written at surface vertex ids"""
+    return violation.sub_check in ("border", "border_large") and violation.signature == "boundary:component-attr"
+
+
+MATCHERS = {"kf_boundary_map_direction": kf_boundary_map_direction, "kf_boundary_component_attr": kf_boundary_component_attr}
